@@ -114,6 +114,16 @@ func checkGenericUUID(b []byte, tag string) {
 			r.Violation("uuid.UUID.Unmarshal:accept", fmt.Sprintf("Unmarshal(%x) = %d,%v", b, n, err), cs)
 			return
 		}
+		// the same 16 bytes at the head of a longer buffer (a second UUID follows): 16 bytes are
+		// taken, the value is the same
+		{
+			var u2 uuid.UUID
+			n2, err2 := u2.Unmarshal(append(append([]byte{}, b...), b[3], 0xEE, b[0]))
+			ev(1)
+			if err2 != nil || n2 != 16 || u2 != u {
+				r.Violation("uuid.UUID.Unmarshal:followed-by-more", fmt.Sprintf("Unmarshal(%x followed by 3 more bytes) = %d,%v, value %+v; alone it gives 16 and %+v", b, n2, err2, u2, u), cs)
+			}
+		}
 		if u.Version != wv {
 			r.Violation("uuid.UUID.Unmarshal:field:version", fmt.Sprintf("%s: Version=%d want %d", canon, u.Version, wv), cs)
 		}
@@ -213,6 +223,14 @@ func checkVersioned(b []byte, tag string) {
 			if err != nil || n != 16 {
 				r.Violation(name+".Unmarshal:accept", fmt.Sprintf("Unmarshal(%s) = %d,%v", canon, n, err), cs)
 				return
+			}
+			{
+				u2 := newVer(ver)
+				n2, err2 := u2.Unmarshal(append(append([]byte{}, bv...), bv[5], 0xEE))
+				ev(1)
+				if m2, _ := u2.Marshal(); err2 != nil || n2 != 16 || !bytes.Equal(m2, bv) {
+					r.Violation(name+".Unmarshal:followed-by-more", fmt.Sprintf("Unmarshal(%s followed by 2 more bytes) = %d,%v and re-encodes as %x", canon, n2, err2, m2), cs)
+				}
 			}
 			checkFields(ver, u, bv, cs)
 			m, err := u.Marshal()
